@@ -62,6 +62,10 @@ type Pkg struct {
 	Exp    map[string]Tri
 	Defs   [2]map[string]int // kind -> name -> value token
 	Imp    [2]map[string]int // kind -> name -> package imported from (Go interface)
+	// Interned: names made present by intern without a definition (an own
+	// undefined symbol in CL terms): whether an inherited definition shows
+	// through is left open, as for exported undefined names.
+	Interned map[string]bool
 	// history facts, used only to name the construct an operation is (never for a verdict)
 	EverExp  map[string]bool
 	EverUsed map[int]bool
@@ -91,15 +95,20 @@ type World struct {
 func New(n, init int) *World {
 	w := &World{Origin: map[int]Origin{}}
 	for i := 0; i < n; i++ {
-		p := &Pkg{Exp: map[string]Tri{}, EverExp: map[string]bool{}, EverUsed: map[int]bool{}}
-		for k := 0; k < 2; k++ {
-			p.Defs[k] = map[string]int{}
-			p.Imp[k] = map[string]int{}
-		}
+		p := newPkg()
 		p.Exists = i < init
 		w.Pkgs = append(w.Pkgs, p)
 	}
 	return w
+}
+
+func newPkg() *Pkg {
+	p := &Pkg{Exp: map[string]Tri{}, Interned: map[string]bool{}, EverExp: map[string]bool{}, EverUsed: map[int]bool{}}
+	for k := 0; k < 2; k++ {
+		p.Defs[k] = map[string]int{}
+		p.Imp[k] = map[string]int{}
+	}
+	return p
 }
 
 func (w *World) uses(p, q int) bool {
@@ -158,6 +167,16 @@ func (w *World) formerlyExported(c int, name string) bool {
 	}
 	for q := range seen {
 		if w.Pkgs[q].EverExp[name] {
+			return true
+		}
+	}
+	return false
+}
+
+// imported tells whether another package imported t's definition of name.
+func (w *World) imported(t int, name string) bool {
+	for i, pk := range w.Pkgs {
+		if q, imp := pk.Imp[KindOf(name)][name]; imp && pk.Exists && i != t && q == t {
 			return true
 		}
 	}
@@ -259,7 +278,7 @@ func (w *World) resolve(p int, name string, seen map[int]bool) (e Expect) {
 	// A package that exports a name it does not define holds (in CL terms) an
 	// own undefined symbol of that name; whether an inherited definition still
 	// shows through is left open.
-	open := pk.Exp[name] != No
+	open := pk.Exp[name] != No || pk.Interned[name]
 	defer func() {
 		if open {
 			e.May = append(e.Must, e.May...)
@@ -384,6 +403,11 @@ func (w *World) Classify(op Op) (class string, ok bool) {
 		if w.inherits(op.P) {
 			return "use/transitive", true
 		}
+		for _, name := range sortedKeys(w.Pkgs[op.P].Exp) {
+			if _, imp := w.Pkgs[c].Imp[KindOf(name)][name]; imp && w.Pkgs[op.P].Exp[name] != No {
+				return "use/import-conflict", true
+			}
+		}
 		cls := "use/new"
 		for _, name := range sortedKeys(w.Pkgs[op.P].Exp) {
 			if w.Pkgs[op.P].Exp[name] == No {
@@ -391,6 +415,9 @@ func (w *World) Classify(op Op) (class string, ok bool) {
 			}
 			if _, own := w.Own(c, name); own {
 				return "use/own-conflict", true
+			}
+			if _, imp := w.Pkgs[c].Imp[KindOf(name)][name]; imp {
+				return "use/import-conflict", true
 			}
 			if _, def := w.Own(op.P, name); !def {
 				continue
@@ -427,7 +454,10 @@ func (w *World) Classify(op Op) (class string, ok bool) {
 			// nothing; the property statement is silent: not judged
 			return "export/inherited", false
 		}
-		if op.K == "unexport" && cls == "own" && w.Pkgs[c].Exp[op.N] != No && w.uncovers(c, op.N) {
+		if op.K == "unexport" && cls == "own" && w.imported(c, op.N) {
+			cls += "+imported"
+		}
+		if op.K == "unexport" && strings.HasPrefix(cls, "own") && w.Pkgs[c].Exp[op.N] != No && w.uncovers(c, op.N) {
 			cls += "+uncovers"
 		}
 		return op.K + "/" + cls, true
@@ -462,6 +492,9 @@ func (w *World) Classify(op Op) (class string, ok bool) {
 			return op.K + "/" + cls, false
 		}
 		if cls == "own" {
+			if w.imported(t, op.N) {
+				cls += "+imported" // another package imported this definition
+			}
 			// would an inherited definition show once the own one is gone?
 			k := KindOf(op.N)
 			v := w.Pkgs[t].Defs[k][op.N]
@@ -515,7 +548,57 @@ func (w *World) Classify(op Op) (class string, ok bool) {
 		if _, own := w.Own(c, op.N); own {
 			return "import/own-conflict", false // CL signals a conflict; the statement gives the own definition precedence
 		}
-		return "import/new", true
+		if w.Pkgs[c].Exp[op.N] != No || w.Pkgs[c].Interned[op.N] {
+			return "import/present-undefined", false
+		}
+		cls := "import/var"
+		if KindOf(op.N) == Fun {
+			cls = "import/func"
+			if w.Pkgs[op.P].EverExp[op.N] {
+				cls += "+formerly-exported-name"
+			}
+		}
+		if e := w.Resolve(c, op.N); 0 < len(e.Must) || 0 < len(e.May) {
+			cls += "+over-inherited"
+		}
+		return cls, true
+	case "delete":
+		if !w.Pkgs[op.P].Exists || op.P == c {
+			return "delete/invalid", false
+		}
+		for _, pk := range w.Pkgs {
+			for k := 0; k < 2; k++ {
+				for _, q := range pk.Imp[k] {
+					if pk.Exists && q == op.P {
+						return "delete/imported-from", false
+					}
+				}
+			}
+		}
+		if 0 < len(w.Users(op.P)) {
+			return "delete/in-use", true // documented: refused with a package-error
+		}
+		if 2 <= len(w.Pkgs[op.P].Uses) {
+			return "delete/unused+uses-several", true
+		}
+		return "delete/unused", true
+	case "rename":
+		if !w.Pkgs[op.P].Exists {
+			return "rename/invalid", false
+		}
+		if op.P == c {
+			return "rename/current", true
+		}
+		return "rename/other", true
+	case "intern":
+		_, cls, ok := w.Target(op.N)
+		if !ok {
+			return "intern/" + cls, false
+		}
+		return "intern/" + cls, true
+	case "unintern":
+		cls, ok := w.Classify(Op{K: "makunbound", N: op.N})
+		return "unintern" + strings.TrimPrefix(cls, "makunbound"), ok
 	}
 	return op.K + "/unknown", false
 }
@@ -580,7 +663,33 @@ func (w *World) Apply(op Op, val, step int) {
 		}
 	case "import":
 		w.Pkgs[c].Imp[KindOf(op.N)][op.N] = op.P
+	case "delete":
+		if len(w.Users(op.P)) == 0 {
+			w.Pkgs[op.P] = newPkg()
+		}
+	case "rename":
+		// the name is not part of the model
+	case "intern":
+		if _, cls, _ := w.Target(op.N); cls == "new" {
+			w.Pkgs[c].Interned[op.N] = true
+		}
+	case "unintern":
+		// CL: removes the symbol if it is present in the package (own);
+		// an inherited symbol is left alone
+		t, cls, _ := w.Target(op.N)
+		if cls == "own" {
+			delete(w.Pkgs[t].Defs[KindOf(op.N)], op.N)
+		}
+		delete(w.Pkgs[c].Interned, op.N)
+		if w.Pkgs[c].Exp[op.N] == Yes {
+			w.Pkgs[c].Exp[op.N] = Maybe
+		}
 	}
+}
+
+// ExpectError tells whether the operation is documented to be refused.
+func (w *World) ExpectError(op Op) bool {
+	return op.K == "delete" && w.Pkgs[op.P].Exists && 0 < len(w.Users(op.P))
 }
 
 func sortedKeys(m map[string]Tri) []string {
